@@ -3,8 +3,10 @@ MC : MC_WriterBuffer.tla - the staging buffers of the three writer families (Xal
      XalanOtherEncodingWriter) and of the legacy FormatterToXML, transcribed with a buffer of 8 units: for every sequence of
      write operations the concatenation of the flushes is the encoding of the input, the buffer never overruns, the two
      counters stay consistent and no flush cuts a multi-unit character.  MC_Serializer.tla - the escaping decisions of
-     FormatterToXMLUnicode (SerializerImpl.tla: CharFunctor tables, CDATA splitting, character-reference fallback) against the
-     abstract parser of Serializer.tla (ParseBack o Serialize = id on all short strings over the class alphabet).
+     FormatterToXMLUnicode (SerializerImpl.tla: CharFunctor tables, CDATA splitting, character-reference fallback) and of the
+     older FormatterToXML (second half of SerializerImpl.tla: m_maxCharacter, special-character maps, accumDefaultEscape,
+     writeNormalizedChars, canTranscodeTo) against the abstract parser of Serializer.tla (ParseBack o Serialize = id on all
+     short strings over the class alphabet; invariants ImplConforms / LegacyConformsInv).
 GEN: MC_WriterBuffer exports one shortest operation history per transition (hist + VIEW + tlc -dump); every history is
      scaled to the real buffer size (512) and rendered as an event script; plus the offset x class x context x option product:
      each special character / sequence at buffer offsets 505..516 in text, attribute values, CDATA-section elements, comments,
